@@ -9,7 +9,8 @@
 (*                   edge - the transition cover replayed on the real FileLogger.                  *)
 EXTENDS Logger, Json
 
-CONSTANTS NP, NLines, Dev, Grain, Lvls      \* Lvls: the level choices a submit has (TRUE = enabled)
+CONSTANTS NP, NLines, Dev, Grain, Lvls,     \* Lvls: the level choices a submit has (TRUE = enabled)
+          TwoPhase                          \* producers may sit between the two halves of a push (Reserve / Publish)
 VARIABLES s, sched
 
 P == 1..NP
@@ -20,30 +21,37 @@ Log(st) == sched' = IF Grain = "seam" THEN Append(sched, st) ELSE sched
 Init == /\ s = IF Grain = "seam" THEN ToPark(S0(P), Dev) ELSE S0(P)
         /\ sched = <<>>
 
-Submit(p, en) == /\ s.nsub[p] < NLines /\ s.xpc # "returned"
+Submit(p, en) == /\ s.nsub[p] < NLines /\ s.xpc # "returned" /\ ~Parked(s, p) /\ (en => CanPush(s))
                  /\ s' = DoSubmit(s, p, en, Dev) /\ Log(Rec("S", p, IF en THEN 1 ELSE 0))
+
+Reserve(p) == /\ TwoPhase /\ s.nsub[p] < NLines /\ s.xpc # "returned" /\ ~Parked(s, p) /\ CanPush(s)
+              /\ s' = DoReserve(s, p) /\ Log(Rec("R", p, 1))
+Publish(p) == /\ Parked(s, p) /\ s' = DoPublish(s, p, Dev) /\ Log(Rec("P", p, 0))
+Producers == \E p \in P : Publish(p)
 
 \* statement grain
 XReq == s.xpc = "idle" /\ s' = DoXReq(s) /\ UNCHANGED sched
-XEnq == s.xpc = "enq" /\ s' = DoXEnq(s) /\ UNCHANGED sched
+XEnq == s.xpc = "enq" /\ CanPush(s) /\ s' = DoXEnq(s) /\ UNCHANGED sched
 XJoin == CanJoin(s) /\ s' = DoXJoin(s) /\ Log(Rec("J", 0, 0))
 CCheck == s.cpc = "check" /\ s' = DoCCheck(s, Dev) /\ UNCHANGED sched
-CPop == s.cpc = "pop" /\ s' = DoCPop(s) /\ UNCHANGED sched
+CPop == s.cpc = "pop" /\ s' = DoCPop(s, Dev) /\ UNCHANGED sched
 CWrite == s.cpc = "write" /\ s' = DoCWrite(s) /\ UNCHANGED sched
 CSleep == s.cpc = "sleep" /\ s' = DoCSleep(s) /\ UNCHANGED sched
 
 \* seam grain
-X == s.xpc = "idle" /\ s' = RunX(s) /\ Log(Rec("X", 0, 0))
+X == s.xpc = "idle" /\ CanPush(s) /\ s' = RunX(s) /\ Log(Rec("X", 0, 0))
 C == s.cpc \in {"sleep", "write"} /\ s' = RunC(s, Dev) /\ Log(Rec("C", 0, 0))
 
 Consumer == IF Grain = "stmt" THEN CCheck \/ CPop \/ CWrite \/ CSleep ELSE C
 Stopper == (Grain = "stmt" /\ XEnq) \/ XJoin
 Next == \/ \E p \in P, en \in Lvls : Submit(p, en)
+        \/ \E p \in P : Reserve(p) \/ Publish(p)
         \/ IF Grain = "stmt" THEN XReq ELSE X
         \/ Consumer \/ Stopper
 
 \* the consumer thread and a thread that is inside stop() keep running; nobody is obliged to call stop()
-Spec == Init /\ [][Next]_vars /\ WF_vars(Consumer) /\ WF_vars(Stopper)
+\* a producer inside a push finishes it
+Spec == Init /\ [][Next]_vars /\ WF_vars(Consumer) /\ WF_vars(Stopper) /\ WF_vars(Producers)
 
 \* ---- C28 -----------------------------------------------------------------------------------------
 InvExactlyOnce == ExactlyOnce(s)
@@ -58,11 +66,12 @@ StopReturns == (s.xpc \in {"enq", "join"}) ~> (s.xpc = "returned")
 \* witnesses (must be *violated*): the model does contain a stop that overtakes queued lines, and a
 \* stop that returns with every producer's lines written
 Reach_StopWithBacklog == ~(s.xpc = "join" /\ Len(s.q) > 2)
+Reach_PopFailsWithBacklog == ~(s.cpc = "sleep" /\ s.flag /\ Len(s.q) > 2 /\ s.unpub # NoSub)
 Reach_AllWritten == ~(s.xpc = "returned" /\ Len(s.file) = NP * NLines)
 
 \* ---- schedule export (seam grain) ------------------------------------------------------------------
 Edge == PrintT("LEAF " \o ToJson(sched))
 \* the ghost bookkeeping (who submitted what with which result) and the file written so far do not influence
 \* what the threads can do next: the cover is taken over the control state and the queue content
-View == [q |-> s.q, nsub |-> s.nsub, cpc |-> s.cpc, cur |-> s.cur, xpc |-> s.xpc, flag |-> s.flag]
+View == [q |-> s.q, nsub |-> s.nsub, cpc |-> s.cpc, cur |-> s.cur, xpc |-> s.xpc, flag |-> s.flag, unpub |-> DOMAIN s.unpub]
 =============================================================================
